@@ -468,15 +468,21 @@ def exactDone (p : Params) (c : Conn) (cnt : List Int) (k : Kind) (ec : Ec) (tot
   | .dom => onRequestDomainName p c cnt ec total
   | _ => .ok (c, cnt, [])
 
-/-- intermediate completion of a composed read: `data` was stored at `off + got`; go on until
-    the region is full, an error, or a zero-byte read -/
-def onExactChunk (p : Params) (c : Conn) (cnt : List Int) (off need got : Nat) (k : Kind) (ec : Ec) (data : Bytes) : Out :=
+/-- the I/O part of an intermediate completion of a composed read: `data` was stored at
+    `off + got`; is the composed operation over (region full, error, or zero-byte read)? -/
+def exactStep (c : Conn) (off need got : Nat) (ec : Ec) (data : Bytes) : Except Fault (Conn × Nat × Bool) :=
   match c.outBuf.write (off + got : Nat) data with
   | .error e => .error e
   | .ok ob =>
-    let c := { c with outBuf := ob }
     let total := got + data.length
-    if ec ≠ .ok ∨ data.length = 0 ∨ total ≥ need then exactDone p c cnt k ec total
+    .ok ({ c with outBuf := ob }, total, decide (ec ≠ .ok ∨ data.length = 0 ∨ total ≥ need))
+
+/-- intermediate completion of a composed read: go on until it is over, then call the handler -/
+def onExactChunk (p : Params) (c : Conn) (cnt : List Int) (off need got : Nat) (k : Kind) (ec : Ec) (data : Bytes) : Out :=
+  match exactStep c off need got ec data with
+  | .error e => .error e
+  | .ok (c, total, done) =>
+    if done then exactDone p c cnt k ec total
     else .ok (c, cnt, [.read .client (min (need - total) 65536) (.exact off need total k)])
 
 /-- does the result fit the operation? (what the I/O layer guarantees: never more bytes than
